@@ -8,6 +8,10 @@ correspondence: the unmodified dsh.c under the controlled scheduler (harness/sch
 oracle:         monitors of the harness on observable events only: per-host connect count = 1, no connect for
                 a non-target, dsh() returns after the last teardown and after the output was written,
                 no deadlock (no runnable thread), step budget
+descriptors:    the model's connect outcome is success / failure, not a descriptor: the correspondence maps
+                "rcmd_connect() >= 0" to success; the descriptor VALUE is generated over {0, 1, 2, >= 3} (harness key
+                `lowfds`: pdsh started with stdin / stdio closed, lowest free number first), and the real part runs
+                the scratch build of `pdsh -R exec` with descriptor 0 closed
 """
 from vlib import fancheck
 
@@ -38,6 +42,15 @@ MANIFEST = dict(
 
 def run(ctx):
     variant, cov = fancheck.run(ctx, "C03", PROPS, LEVEL)
+    # real kernel, real descriptors: pdsh started with stdin closed (the first connection gets descriptor 0)
+    from vlib import fanreal
+    if ctx.replay:
+        import json
+        rc = (json.load(open(ctx.replay)).get("case") or {}).get("real_closed")
+        if rc:
+            fanreal.run_closed_stdin(ctx, cov, only=rc)
+    elif not ctx.violations and not ctx.broken:
+        fanreal.run_closed_stdin(ctx, cov)
     return ctx.finish(LEVEL, cov, assumptions=fancheck.assumptions(variant),
                       trusted_base=fancheck.TRUSTED,
                       checker_cmd="lake build PdshVerif.Props.C03 && #print axioms on every theorem of Props/C03.lean")
